@@ -14,10 +14,11 @@ type State struct {
 	reach string
 	comp  map[string]string
 	base  string
+	entry *State // the state old(...) refers to on this path (nil: the function entry)
 }
 
 func (s *State) clone() *State {
-	n := &State{reach: s.reach, comp: make(map[string]string, len(s.comp)), base: s.base}
+	n := &State{reach: s.reach, comp: make(map[string]string, len(s.comp)), base: s.base, entry: s.entry}
 	for k, v := range s.comp {
 		n.comp[k] = v
 	}
@@ -131,6 +132,29 @@ func (vc *VC) merge(edges []edge, label string) *State {
 	r := vc.fresh("reach_"+label, sBool)
 	vc.assert(eq(r, or(conds...)))
 	out := &State{reach: r, comp: map[string]string{}}
+	// the old-state of the paths being joined
+	sameEntry := true
+	for _, e := range edges[1:] {
+		if e.st.entry != edges[0].st.entry {
+			sameEntry = false
+		}
+	}
+	if sameEntry {
+		out.entry = edges[0].st.entry
+	} else {
+		var ees []edge
+		ok := true
+		for _, e := range edges {
+			if e.st.entry == nil {
+				ok = false
+				break
+			}
+			ees = append(ees, edge{e.st.entry, e.cond})
+		}
+		if ok {
+			out.entry = vc.merge(ees, label+"_old")
+		}
+	}
 	// base
 	sameBase := true
 	for _, e := range edges[1:] {
